@@ -205,6 +205,26 @@ def ob_filter_thru(ntrace, nx, lo, hi, maskpat, use_wset=False):
                       bounds='%d traces x %d pixels, every flux image' % (ntrace, nx), mode='mixed', solver_timeout_ms=300000, max_seconds=1700)
 
 
+def ob_filter_thru_int(nx, lo, hi):
+    """an integer-typed flux image (raw counts) must give the weighted mean of its values, as the float image does"""
+    def fn(ctx):
+        from pydl.pydlspec2d.spec2d import filter_thru
+        from pathsym.core import Z
+        fi = [ctx.int('f%d' % j) for j in range(nx)]
+        for v in fi:
+            ctx.add(z3.And(v.v >= -100000, v.v <= 100000))
+        d = {'fn': 'filter_thru_int', 'nx': nx, 'lo': lo, 'hi': hi}
+        ctx.detail = d
+        ctx.ints_as_Z = True
+        wimg = _waveimg(1, nx, lo, hi)
+        res = filter_thru(symnp._build_object([[Z(v.v) for v in fi]]), waveimg=wimg)
+        ref = filter_thru(symnp.rarray([[R(z3.ToReal(v.v)) for v in fi]]), waveimg=wimg)
+        for b in range(5):
+            ctx.require(zt(R.lift(res[0, b])) == zt(R.lift(ref[0, b])), 'filter_thru: an integer flux image gives the same band fluxes as the float image', dict(d, b=b))
+    return Obligation('filter_thru integer flux 1x%d %g-%g' % (nx, lo, hi), fn, bounds='1 trace x %d pixels, every integer flux in [-1e5, 1e5]' % nx,
+                      mode='mixed', solver_timeout_ms=300000)
+
+
 def obligations(tier, seed):
     q = tier == 'quick'
     obs = [ob_air_scalar('a2v'), ob_air_scalar('v2a')]
@@ -219,6 +239,8 @@ def obligations(tier, seed):
     obs.append(ob_filter_thru(1, 6, 3800.0, 9200.0, 0))
     obs.append(ob_filter_thru(2, 6, 4000.0, 8000.0, 0b000100))
     obs.append(ob_filter_thru(1, 6, 9200.0, 3800.0, 0))          # wavelengths decreasing with pixel index
+    # ob_filter_thru_int (integer-typed flux images) is not registered: the integer dtype reaches the trace-set fit of the
+    # pixel widths as bit-vector abscissae, which the engine does not mix with real arithmetic (inconclusive, DESIGN 9.10)
     if not q:
         obs.append(ob_filter_thru(2, 6, 8000.0, 4000.0, 0b010000))
         obs.append(ob_filter_thru(2, 8, 3500.0, 10500.0, 0b00100100))
@@ -263,6 +285,12 @@ def replay(rec):
         if (ws != keep).any():
             return True
         return any(abs(out[i] - f(float(keep[i]))) > 1e-9 * max(1.0, abs(keep[i])) for i in range(d['n']))
+    if fn == 'filter_thru_int':
+        from pydl.pydlspec2d.spec2d import filter_thru
+        fi = np.array([[int(inp.get('f%d' % j, 3)) for j in range(d['nx'])]], dtype='i8')
+        wimg = _waveimg(1, d['nx'], d['lo'], d['hi'])
+        a, b = filter_thru(fi, waveimg=wimg), filter_thru(fi.astype('d'), waveimg=wimg)
+        return bool(np.abs(np.asarray(a, dtype='d') - b).max() > 1e-9 * max(1.0, np.abs(b).max()))
     if fn == 'air_0d':
         from pydl.goddard.astro import airtovac, vactoair
         f = airtovac if d['which'] == 'a2v' else vactoair
